@@ -1,5 +1,6 @@
 import PprofVerif.Lemmas.CodecTotalPost
 import PprofVerif.Lemmas.LegacyCPUTotal
+import PprofVerif.Lemmas.LegacyCPUValues
 import PprofVerif.Model.Parse
 /-!
 # C02 — Parsing is total: an error or a valid profile for any bytes
@@ -136,6 +137,24 @@ theorem parseCPUSamples_never_panics (w : Word) (adjust : Bool) (period : Int) (
     (b : Slice) (acc : List CPUSample) (h : b.len ≤ fuel) :
     ∀ s, parseCPUSamples w adjust period fuel b acc ≠ .panic s :=
   parseCPUSamples_ne_panic w adjust period fuel b acc h
+
+/-- A recognised binary CPU profile has exactly one value per sample type (the two types
+samples/count and cpu/nanoseconds) in every sample — before and after signal-frame removal and
+duplicate-leaf cleanup — which is the `len(s.Value) == len(p.SampleType)` part of the validity
+contract on the legacy CPU path. -/
+theorem parseCPU_ok_two_values (b : Bytes) (r : CPUResult) (h : LegacyCPU.parseCPU b = .ok (some r)) :
+    ∀ s ∈ r.samples, s.values.length = 2 := parseCPU_values b r h
+
+/-- Go ranges over the map `addr1` in unspecified order when it looks for the signal-handler
+frame to strip; at most one address can reach the threshold `len(p.Sample) - len(p.Sample)/32`,
+so the order cannot influence the result (the model scans in first-occurrence order). -/
+theorem frame_removal_choice_unique (samples : List CPUSample) (secs : List Nat)
+    (h : secondAddrs samples = .ok secs) (a b : Nat) (ha : a ∈ secs)
+    (hca : secs.count a ≥ samples.length - samples.length / 32)
+    (hcb : secs.count b ≥ samples.length - samples.length / 32) : a = b :=
+  frame_candidate_unique secs samples.length (secondAddrs_length samples secs h) a b ha hca hcb
+
+example : secondAddrs [⟨[1, 10], [5, 7, 9]⟩, ⟨[1, 10], [6, 7]⟩, ⟨[1, 10], [8]⟩] = .ok [7, 7] := by decide
 
 /-- The modelled part of the `ParseData` dispatch (protobuf, validity gate, binary CPU probe)
 never panics, for any bytes. -/
